@@ -256,7 +256,13 @@ def run_case(case, seed):
                 return r
             key = 'hocur:zeros-in-data:two-modes' if case['mask'] else 'hocur:complete-candidates'
             complete = True
+        prefix_spans = True
         if case.get('fam') == 'repeat-lead' and rk == m - 1 and complete:
+            # do the first `rk` snapshots already span the column spaces of the unfoldings of the earlier modes?
+            sub = want[..., :rk]
+            trp = [np.linalg.matrix_rank(sub.reshape(int(np.prod(sub.shape[:k_])), -1), tol=1e-9 * np.abs(want).max()) for k_ in range(1, want.ndim - 1)]
+            prefix_spans = trp == tr[:-1] and case['mult'] * rk >= m
+        if not prefix_spans:
             # recorded limitation (known_findings.json), second input class of the same cause: the column candidates of the
             # earlier modes are built from the FIRST `rank` snapshot indices only, so with ranks == number of distinct snapshots
             # and a duplicate among the leading snapshots they span too little and the ranks are under-estimated
